@@ -125,7 +125,8 @@ CHECKS = {
              "harness transport (connect, take, inject, peer loss) and explicit pending callbacks (task gate), model checked for "
              "exactly-one-place, no duplication, per-connection order, back-pressure (EAGAIN / blocked sender keeps its message), one "
              "outstanding receive per pull pipe, readiness mirrors; every transition is replayed on the real socket through the "
-             "harness transport with callbacks released one at a time.",
+             "harness transport with callbacks released one at a time."
+             "  A pipe closed by the application while a completed transport receive still waits for its callback is part of the PULL graph (the reaper waits for the callback, which must free the message).",
         note="Trusted: TLC, harness (drv_proto.c, vtran.c, dee.c), NNG_VERIF hooks, ASan/UBSan. 2 pipes, buffer 0..2, <= 4 messages; the "
              "transport is the harness transport (real transports are covered by C01).",
         technique="TLA+ model checking (TLC) + gated edge-cover replay through a harness transport",
@@ -136,7 +137,8 @@ CHECKS = {
              "old/unknown/no-bit/short responses) and proto/Rep.tla replayed on the RESPONDENT (respond.c is the same state machine as "
              "rep.c), model checked for: a delivered response answers the live survey of that context and is handed over no later "
              "than its deadline, pending receives never outlive the deadline and fail with ETIMEDOUT, ESTATE rules, response routing by "
-             "backtrace, readiness; TLC -simulate behaviours replayed on the real sockets under the virtual clock.",
+             "backtrace, readiness; TLC -simulate behaviours replayed on the real sockets under the virtual clock."
+             "  A second simulation focus (Survey_sendq.cfg: only sends, connections and the wire) fills the per-pipe survey queues: surveys beyond the queue are dropped for that respondent and nothing leaks.",
         note="Trusted: TLC, harness, NNG_VERIF virtual clock, ASan/UBSan. 2 contexts, 2-3 pipes, macro-step grain (a response racing the "
              "expire thread inside one step is not enumerated); queue capacities 8/128 are not reached within the bounds.",
         technique="TLA+ model checking (TLC) + simulation replay through a harness transport with virtual time",
@@ -166,7 +168,8 @@ CHECKS = {
              "(chains of 0..4 devices with 5 ttl values per hop and of 13..17 devices at ttl 14/15, rings of 1..3 devices: a reply returns "
              "to exactly the original requester with the unchanged payload iff every hop is within its ttl, nothing disconnects a "
              "well-formed message, rings die out within 15 hops, the header never exceeds its capacity; termination under fairness). "
-             "TLC -simulate behaviours of Device.tla are replayed on a real nng_device between xrep/xreq and xrespondent/xsurveyor.",
+             "TLC -simulate behaviours of Device.tla are replayed on a real nng_device between xrep/xreq and xrespondent/xsurveyor."
+             "  dev/DevLife.tla: the device operation itself on a one-way (raw PULL -> raw PUSH) and a two-way (raw PAIR0) device: start, forward with the body unchanged, a path blocked in its send, cancel in every state (the operation completes once, the sockets are closed, what was in flight is freed); complete edge cover replayed.",
         note="Trusted: TLC, harness, hooks, ASan/UBSan. Chains and rings are composed in the model from the per-hop operators the single "
              "real device is bound to; the cooked ends (rep.c/respond.c) are bound by C04/C07; pair1 and bus devices are covered by C08/C09 "
              "hop/origin rules, not by a device replay.",
@@ -200,7 +203,8 @@ CHECKS = {
              "NNG_OPT_WS_SENDMAXFRAME).  TLC -simulate behaviours are replayed against a real ws:// listener by a plain TCP peer which also "
              "checks everything the server emits (status line, header block, Sec-WebSocket-Accept, frames unmasked / minimally encoded / no "
              "reserved bits, pong echoes the ping, fragments in order) under I/O clamps of 1 and 3 bytes per system call and unclamped, "
-             "with payload scales 1 and 1000.",
+             "with payload scales 1 and 1000."
+             "  Client role: the upgrade request is padded (NNG_OPT_WS_HEADER) so that the emitted header block is exactly the size of the connection's fixed emit buffer minus one, that size, and plus one; the peer checks length, line ends and the absence of NUL bytes.",
         note="Trusted: TLC, harness/drv_ws.c, the clamp hook, ASan/UBSan, accounting allocator. Both roles of the ws transport (listener with "
              "the driver as client; dialer with the driver as server: emitted request, 13 shapes of upgrade response, masking of emitted "
              "frames, refusal of masked server frames).  The general HTTP client API, chunked transfer decoding and file handlers are "
@@ -219,7 +223,8 @@ CHECKS = {
         text="TLA+ specs of nni_lmq, nni_msgq and nni_id_map with an abstract layer (bounded FIFO / finite map / id cursor) and an "
              "implementation-shaped layer (ring indices, probe chains, skip counters) are model checked exhaustively for small "
              "capacities (refinement, index range, resize keeps survivors in order, alloc uniqueness/range/cursor); every transition "
-             "of the TLC state graph is then replayed on the real functions and each observed step must be a step of the specification.",
+             "of the TLC state graph is then replayed on the real functions and each observed step must be a step of the specification."
+             "  data/Ids.tla: identifiers of sockets, contexts, dialers and listeners over complete nng_fini / nng_init cycles (never issued twice, unique among live objects, a closed handle is refused whatever was opened meanwhile); a defect configuration (cursor reset by nng_fini) must violate the invariant on every run; the allocator balance of these walks is taken after nng_fini.",
         note="Trusted: TLC, harness/drv_data.c, ASan/UBSan, the accounting allocator. Bounded: capacities <= 2..5, <= 7 messages, key "
              "sets of 3..6 keys; ids of sockets/pipes/requests are covered through the id map that issues them.",
         technique="TLA+ model checking (TLC) + edge-cover replay of the state graph on the implementation",
